@@ -293,3 +293,57 @@ def rule_ladders(ck, repo, table):
     ck.decide(centre, R, 'cis_trans:centre-bond', None, 'sign no longer read from the central bond of the cumulene chain',
               file=f.file, line=f.lineno, func=f.qualname)
     ck.floor(R, 60)
+
+
+def rule_stereo_cache_set(ck, repo):
+    R = 'C12.D5-stereo-cache'
+    ck.rule(R, 'flush_stereo_cache pops exactly the cached values that (a) read stereo labels and (b) are consulted by the stereo-assignment '
+               'API (add_atom_stereo, add_cis_trans_stereo, add_wedge, calculate_cis_trans_from_2d, fix_stereo); computed from attribute read sets '
+               'and the self-attribute call graph')
+    from .effects import Protocol
+    P = Protocol(repo)
+    mc = P.container
+    reg = repo.cache_registry(mc)
+    by_func = {f: k for k, f in reg.items()}
+    api = ['add_atom_stereo', 'add_cis_trans_stereo', 'add_wedge', 'calculate_cis_trans_from_2d', 'fix_stereo']
+
+    def uses(f, seen):
+        """cached values reachable through self.<attr> from f"""
+        out = set()
+        if f in seen:
+            return out
+        seen.add(f)
+        for n in ast.walk(f.node):
+            if isinstance(n, ast.Attribute) and isinstance(n.value, ast.Name) and n.value.id == 'self':
+                name = n.attr
+                g = repo.lookup(mc, name) or repo.lookup(mc, f.cls.mangle(name) if f.cls else name)
+                if g is None and f.cls is not None and name.startswith('__'):
+                    g = f.cls.method(name)
+                if g is None:
+                    continue
+                if g in by_func:
+                    out.add(by_func[g])
+                out |= uses(g, seen)
+        return out
+    reach = set()
+    for a in api:
+        f = repo.lookup(mc, a)
+        ck.require(f is not None, f'stereo API {a} vanished')
+        reach |= uses(f, set())
+    dep = {k for k in reach if 'STEREO' in P.reads(reg[k])}
+    fl = repo.lookup(mc, 'flush_stereo_cache')
+    popped = {n.args[0].value for n in ast.walk(fl.node) if isinstance(n, ast.Call) and isinstance(n.func, ast.Attribute) and n.func.attr == 'pop'
+              and src(n.func.value) == 'self.__dict__' and n.args and isinstance(n.args[0], ast.Constant)}
+    ck.require(len(reach) >= 8, f'stereo API reaches only {len(reach)} cached values; call graph broken')
+    for k in sorted(dep | popped):
+        ck.decide(k in dep and k in popped, R, k, 'stereo dependent and popped' if k in dep and k in popped else None,
+                  (f'cached value {k} reads stereo labels and is consulted by the stereo-assignment API but flush_stereo_cache does not drop it: '
+                   f'a second assignment in the same round sees stale chirality classes') if k in dep else
+                  f'flush_stereo_cache pops {k}, which is not a stereo-dependent cached value of the assignment API (misspelt key?)',
+                  file=fl.file, line=fl.lineno, func=fl.qualname)
+    ck.floor(R, 2)
+    # fix_stereo re-validates with the same set: every restore round ends with flush_stereo_cache
+    fs = repo.lookup(mc, 'fix_stereo')
+    calls = [n for n in ast.walk(fs.node) if isinstance(n, ast.Call) and src(n.func) == 'self.flush_stereo_cache']
+    ck.decide(len(calls) >= 2, R, 'fix_stereo:flushes', len(calls), 'fix_stereo no longer drops the stereo caches after clearing the labels and after every restore round',
+              file=fs.file, line=fs.lineno, func=fs.qualname)
